@@ -132,6 +132,9 @@ type callCtx struct {
 	fn     *ssa.Function
 	params []AV
 	key    string
+	// rel[i][j]: must-ordering between two parameters that the call site establishes
+	// structurally (argument i is argument j plus / minus a non-negative amount)
+	rel map[int]map[int]Dir
 }
 
 type evalEnv struct {
@@ -147,12 +150,111 @@ func (E *Ranger) note(format string, a ...any) {
 }
 
 func (E *Ranger) ctxFor(fn *ssa.Function, args []AV) *callCtx {
+	return E.ctxForRel(fn, args, nil)
+}
+
+func (E *Ranger) ctxForRel(fn *ssa.Function, args []AV, rel map[int]map[int]Dir) *callCtx {
+	// table assumptions about a parameter hold in every context
+	for i, p := range fn.Params {
+		if i >= len(args) {
+			break
+		}
+		k := E.P.Key(fn) + ":" + p.Name()
+		if it, ok := E.Spec.Params[k]; ok && args[i].Num {
+			E.Used["param "+k+" ∈ "+it.String()] = true
+			args[i].R = args[i].R.Meet(it)
+			if args[i].D == DEq {
+				args[i].I = args[i].I.Meet(it)
+			}
+		}
+		if c, ok := E.Spec.Ideal[k]; ok && args[i].Num && args[i].D == DEq {
+			if rc, isC := args[i].R.IsConst(); !isC || rc.Cmp(c) != 0 {
+				E.Used["ideal run: "+k+" = "+c.RatString()] = true
+				args[i].I = ConstItv(c)
+				switch {
+				case args[i].R.GEc(c):
+					args[i].D = DGe
+				case args[i].R.LEc(c):
+					args[i].D = DLe
+				default:
+					args[i].D = DUnk
+				}
+			}
+		}
+	}
 	var sb strings.Builder
 	sb.WriteString(E.P.Key(fn))
 	for _, a := range args {
 		sb.WriteString("|" + a.String())
 	}
-	return &callCtx{fn: fn, params: args, key: sb.String()}
+	var is []int
+	for i := range rel {
+		is = append(is, i)
+	}
+	sort.Ints(is)
+	for _, i := range is {
+		var js []int
+		for j := range rel[i] {
+			js = append(js, j)
+		}
+		sort.Ints(js)
+		for _, j := range js {
+			fmt.Fprintf(&sb, "|p%d%sp%d", i, rel[i][j], j)
+		}
+	}
+	return &callCtx{fn: fn, params: args, key: sb.String(), rel: rel}
+}
+
+// argRelations: structural orderings between the arguments of one call.
+func (E *Ranger) argRelations(ctx *callCtx, env *evalEnv, args []ssa.Value, depth int) map[int]map[int]Dir {
+	var rel map[int]map[int]Dir
+	set := func(i, j int, d Dir) {
+		if rel == nil {
+			rel = map[int]map[int]Dir{}
+		}
+		if rel[i] == nil {
+			rel[i] = map[int]Dir{}
+		}
+		rel[i][j] = d
+	}
+	for i, a := range args {
+		c, ok := E.fwd(ctx, a).(*ssa.Call)
+		if !ok || c.Common().IsInvoke() || c.Common().StaticCallee() == nil || len(c.Common().Args) != 2 {
+			continue
+		}
+		mn := mathName(c.Common().StaticCallee())
+		var d Dir
+		switch mn {
+		case "Dec.Add", "Int.Add":
+			d = DGe
+		case "Dec.Sub", "Int.Sub":
+			d = DLe
+		default:
+			continue
+		}
+		x0, x1 := E.fwd(ctx, c.Common().Args[0]), E.fwd(ctx, c.Common().Args[1])
+		for j, b := range args {
+			if j == i {
+				continue
+			}
+			bv := E.fwd(ctx, b)
+			var other ssa.Value
+			switch {
+			case bv == x0:
+				other = x1
+			case bv == x1 && d == DGe:
+				other = x0
+			default:
+				continue
+			}
+			o := E.eval(ctx, env, other, depth+1)
+			if o.R.GE0() && o.I.GE0() {
+				set(i, j, d)
+				set(j, i, d.flip())
+			}
+		}
+	}
+	return rel
 }
 
 // TopCtx is the context of a function analysed as an entry: parameters take their
@@ -954,6 +1056,22 @@ func (E *Ranger) callResult(ctx *callCtx, env *evalEnv, c *ssa.Call, idx int, de
 		if as[1].D == DEq && as[1].R.GE0() {
 			r.D = as[0].D
 		}
+		// base ≥ 1 ⇒ power ≥ 1 ; base ∈ [0,1] ⇒ power ∈ [0,1]   (exponent ≥ 0)
+		one := ratInt(1)
+		if as[1].R.GE0() {
+			if as[0].R.GEc(one) {
+				r.R = Range(one, nil, false, false)
+			} else if as[0].R.In01() {
+				r.R = Range(ratInt(0), one, false, false)
+			}
+		}
+		if as[1].I.GE0() {
+			if as[0].I.GEc(one) {
+				r.I = Range(one, nil, false, false)
+			} else if as[0].I.In01() {
+				r.I = Range(ratInt(0), one, false, false)
+			}
+		}
 		return r
 	}
 	if it, ok := E.Spec.Results[key]; ok && idx == 0 {
@@ -967,7 +1085,7 @@ func (E *Ranger) callResult(ctx *callCtx, env *evalEnv, c *ssa.Call, idx int, de
 			}
 		}
 		as := E.args(ctx, env, cc.Args, depth)
-		res := E.Summary(sc, as)
+		res := E.summaryRel(sc, as, E.argRelations(ctx, env, cc.Args, depth))
 		if idx < len(res) {
 			return res[idx]
 		}
@@ -977,8 +1095,10 @@ func (E *Ranger) callResult(ctx *callCtx, env *evalEnv, c *ssa.Call, idx int, de
 
 // Summary evaluates the results of fn for the given argument values: the join over every
 // return that is not a definite error exit.
-func (E *Ranger) Summary(fn *ssa.Function, args []AV) []AV {
-	cctx := E.ctxFor(fn, args)
+func (E *Ranger) Summary(fn *ssa.Function, args []AV) []AV { return E.summaryRel(fn, args, nil) }
+
+func (E *Ranger) summaryRel(fn *ssa.Function, args []AV, rel map[int]map[int]Dir) []AV {
+	cctx := E.ctxForRel(fn, append([]AV{}, args...), rel)
 	mk := "sum:" + cctx.key
 	if _, ok := E.memo[mk]; ok {
 		return E.sums[mk]
@@ -1075,7 +1195,23 @@ func (E *Ranger) mathCall(ctx *callCtx, env *evalEnv, c *ssa.Call, mn string, de
 	case "Dec.Mul", "Dec.MulInt", "Dec.MulInt64", "Int.Mul", "Int.MulRaw", "Dec.MulTruncate", "Dec.MulRoundUp", "Uint.Mul":
 		return E.avMul(as[0], as[1]), true
 	case "Dec.Quo", "Dec.QuoInt", "Dec.QuoInt64", "Dec.QuoTruncate", "Dec.QuoRoundUp":
-		return E.avQuo(as[0], as[1], what), true
+		q := E.avQuo(as[0], as[1], what)
+		if pi, pj := E.paramIndex(ctx, cc.Args[0]), E.paramIndex(ctx, cc.Args[1]); pi >= 0 && pj >= 0 && ctx.rel != nil {
+			one := ratInt(1)
+			switch ctx.rel[pi][pj] {
+			case DGe: // numerator ≥ denominator > 0
+				if as[1].R.GT0() && as[1].I.GT0() {
+					q.R = q.R.Meet(Range(one, nil, false, false))
+					q.I = q.I.Meet(Range(one, nil, false, false))
+				}
+			case DLe: // 0 ≤ numerator ≤ denominator
+				if as[1].R.GT0() && as[1].I.GT0() && as[0].R.GE0() && as[0].I.GE0() {
+					q.R = q.R.Meet(Range(ratInt(0), one, false, false))
+					q.I = q.I.Meet(Range(ratInt(0), one, false, false))
+				}
+			}
+		}
+		return q, true
 	case "Int.Quo", "Int.QuoRaw", "Uint.Quo":
 		q := E.avQuo(as[0], as[1], what)
 		t := AV{R: q.R.Trunc(), I: q.I, D: DUnk, Num: true}
@@ -1159,4 +1295,14 @@ func (E *Ranger) ClearRef() {
 	E.Ref = nil
 	E.memo = map[string]AV{}
 	E.sums = nil
+}
+
+func (E *Ranger) paramIndex(ctx *callCtx, v ssa.Value) int {
+	fv := E.fwd(ctx, v)
+	for i, p := range ctx.fn.Params {
+		if ssa.Value(p) == fv {
+			return i
+		}
+	}
+	return -1
 }
